@@ -312,7 +312,10 @@ where
 
                 let mut info_hashes_by_worker: BTreeMap<usize, Vec<InfoHash>> = BTreeMap::new();
 
-                for info_hash in info_hashes.into_iter() {
+                // Limit the request as a whole, not each swarm worker's part of it
+                let max_scrape_torrents = self.config.protocol.max_scrape_torrents;
+
+                for info_hash in info_hashes.into_iter().take(max_scrape_torrents) {
                     let info_hashes = info_hashes_by_worker
                         .entry(calculate_request_consumer_index(&self.config, info_hash))
                         .or_default();
